@@ -193,7 +193,7 @@ def fresh_bit(name):
 
 
 def is_sym(x):
-    return isinstance(x, (SBit, SInt, SLin, SBits, SBytes))
+    return isinstance(x, (SBit, SInt, SLin, SBits, SBytes, SNeg))
 
 
 # ------------------------------------------------------------------ ints
@@ -284,7 +284,8 @@ class SInt:
         if isinstance(o, (int, _np.integer)):
             o = int(o)
             if o < 0:
-                raise OutOfReach("negative factor")
+                r = self * (-o)
+                return SNeg(r) if isinstance(r, (SInt, SLin)) else -r
             acc = 0
             k = 0
             while o:
@@ -301,7 +302,7 @@ class SInt:
         return self  # SInt is non-negative by construction
 
     def __neg__(self):
-        raise OutOfReach("negative symbolic int")
+        return SNeg(self)
 
     def under_pc(self):
         """value with every bit normalised modulo the path condition (int if that decides it)"""
@@ -425,6 +426,77 @@ class SInt:
 
     def __repr__(self):
         return "SInt<%d bits>" % len(self.bits)
+
+
+class SNeg:
+    """-(magnitude) for a symbolic non-negative magnitude: just enough of int for sign-magnitude codecs (abs, unary minus,
+    comparison with 0, equality)"""
+
+    __slots__ = ("mag",)
+
+    def __init__(self, mag):
+        self.mag = SInt.lift(mag) if not isinstance(mag, SInt) else mag
+
+    def __abs__(self):
+        return self.mag.n()
+
+    def __neg__(self):
+        return self.mag.n()
+
+    def __mul__(self, o):
+        if isinstance(o, (int, _np.integer)):
+            if o == 0:
+                return 0
+            r = self.mag * abs(int(o))
+            return r if o < 0 else (SNeg(r) if isinstance(r, (SInt, SLin)) else -r)
+        raise OutOfReach("product with a negative symbolic int")
+
+    __rmul__ = __mul__
+
+    def _zero(self):
+        return self.mag._is_zero()
+
+    def __eq__(self, o):
+        if isinstance(o, SNeg):
+            return self.mag == o.mag
+        if isinstance(o, (int, _np.integer)) and not isinstance(o, bool):
+            return (self.mag == -int(o)) if o <= 0 else False
+        if isinstance(o, (SInt, SLin, SBit)):  # equal only if both are zero
+            return band(self._zero(), SInt.lift(o)._is_zero())
+        return NotImplemented
+
+    def __ne__(self, o):
+        r = self.__eq__(o)
+        return bnot(r) if isinstance(r, SBit) else (not r if r is not NotImplemented else r)
+
+    def __ge__(self, o):
+        if o == 0:
+            return self._zero()
+        raise OutOfReach("comparison of a negative symbolic int")
+
+    def __gt__(self, o):
+        if o == 0:
+            return False
+        raise OutOfReach("comparison of a negative symbolic int")
+
+    def __lt__(self, o):
+        if o == 0:
+            return bnot(self._zero())
+        raise OutOfReach("comparison of a negative symbolic int")
+
+    def __le__(self, o):
+        if o == 0:
+            return True
+        raise OutOfReach("comparison of a negative symbolic int")
+
+    def __hash__(self):
+        raise OutOfReach("hash of symbolic int")
+
+    def __deepcopy__(self, memo):
+        return self
+
+    def __repr__(self):
+        return "SNeg<%d bits>" % len(self.mag.bits)
 
 
 def add_bits(a, b):
